@@ -546,4 +546,26 @@ theorem refused_unseal_without_reseal_cex :
     ((c1.exec (.unsealC true)).1.bar.sealed = false ∧ (c1.exec (.unsealC true)).1.bar.keyring.isSome = true) := by
   decide
 
+/-! ### a rekey that fails at its first write -/
+
+/-- **A rekey whose first write fails changes nothing that matters**: storage, barrier, the share sets and the key in
+the seal's wrapper are as before — so every later rotation, seal and unseal behaves as if the rekey had never been
+attempted (all theorems about histories apply to the history without it). -/
+theorem failed_rekey_changes_nothing (c : CoreSt) (n t : Nat) :
+    let c' := (c.exec (.rekeyFail n t)).1
+    c'.phys = c.phys ∧ c'.bar = c.bar ∧ c'.sealKey = c.sealKey ∧ c'.cur = c.cur ∧ c'.prev = c.prev := by
+  simp only [CoreSt.exec]
+  split
+  · exact ⟨rfl, rfl, rfl, rfl, rfl⟩
+  · split <;> exact ⟨rfl, rfl, rfl, rfl, rfl⟩
+
+/-- **Finding F79 (repaired)**: with the never-persisted new seal key left in the seal's wrapper, the share-less root
+rotation that follows wraps the new root key under it: after a seal, the (only ever issued) shares no longer unseal —
+the instance is lost. With the wrapper restored the same history unseals. -/
+theorem failed_rekey_poisons_wrapper_cex :
+    let c := (({} : CoreSt).exec (.boot 3 2)).1
+    let run := fun (c : CoreSt) => ((((c.exec .rotroot).1.exec .sealC).1.exec (.unsealC true)).2)
+    run c.rekeyFailPoisoned = .uns .invalid ∧ run (c.exec (.rekeyFail 5 3)).1 = .uns .unsealed := by
+  decide
+
 end C10
